@@ -69,4 +69,10 @@ var plans = map[string]plan{
 		Rule: "outer case = generated subject package with 14 signatures (0-3 parameters, 0-3 results over ==-comparable and non-comparable types incl. pointers, slices, maps, interfaces) wrapped by deriveMem; inner case = a call sequence of 4-24 steps against one memoised function: fresh arguments, an identical earlier tuple, an Equal-but-not-identical rebuild, a hash-colliding tuple (Aa/BB swap); every step is one evaluation; judged: results are exactly f's for the class, f's call count never exceeds the number of distinct classes (class = canonical structural encoding, +-0 identified), zero-argument form runs f once; non-trivial = sequence containing an Equal-but-not-identical repeat; distinct by (signature, sequence)",
 		Assumptions: []string{"f is made deterministic per argument class by a result table keyed by the canonical encoding", "vref encoder (self-tested)"},
 	},
+	"C06": {
+		Quick:    tierPlan{Shards: 6, Checks: 1, Shrink: "1s", Limit: 20 * time.Minute},
+		Thorough: tierPlan{Shards: 16, Checks: 4, Shrink: "1s", Limit: 3 * time.Hour},
+		Rule: "outer case = generated library package (14 exported-field types incl. imported structs, struct-keyed maps, pointer chains); inner case = a drawn value (finite floats, hostile strings, extreme integers, nil/empty containers) whose deriveGoString text is written into a second-stage package of the same module; stage 2 must compile (errors mapped back to cases by line) and every expression must evaluate to a value with the same canonical structural encoding (nil vs empty, pointer targets); non-trivial = every compiled-and-evaluated expression of a value holding a non-nil container or a non-empty string; distinct by (type, encoding)",
+		Assumptions: []string{"cmd/compile as the judge of 'is a Go expression'", "vref.Key equality is structural equality (self-tested)"},
+	},
 }
